@@ -47,6 +47,17 @@ class C04(Prop):
                 b = bytearray(fr)
                 b[bit // 8] ^= 1 << (bit % 8)
                 texts.append(hexlify(bytes(b)).decode())
+        # byte strings that look like frames of the protocol in various states of completion: the signer signs what it is given,
+        # whatever it looks like (zeroed / wrong / right length field, with and without magic, already signed, cut short)
+        for fr in frames:
+            body = bytes(fr[:-4])
+            for lenfield in (b"\x00\x00", b"\xff\xff", len(fr).to_bytes(2, "little"), len(body).to_bytes(2, "little"), (len(fr) + 1).to_bytes(2, "little")):
+                texts.append(hexlify(body[:2] + lenfield + body[4:]).decode())
+            texts.append(hexlify(bytes(fr)).decode())                      # signing a signed frame
+            texts.append(hexlify(body[:40]).decode())                      # header only
+            texts.append(hexlify(b"\xfe\xf0\x00\x00" + rng.randbytes(rng.choice([0, 1, 4, 36, 40, 80]))).decode())
+            texts.append(hexlify(b"\xf0\xfe" + body[2:]).decode())
+        texts += ["fef0", "fef00000", "fef0000000", "fef00000" + "00" * 36, "FEF00000" + "ab" * 40, "fef0" + "0000" * 30]
         for _ in range(ctx.pick(60, 600)):
             n = rng.choice([3, 4, 5, 7, 8, 16, 31, 32, 33, 34, 64, 100, 255, 256, 257, 1000, 1024, 4095, 4096])
             n = n if rng.random() < 0.6 else rng.randrange(3, 4097)
